@@ -373,8 +373,8 @@ def eager_stage(kind, e, st):
             else:
                 fwd = {name: i for i, name in enumerate(st["names"])}
             inv = {k: name for name, k in fwd.items()}
-            if len(inv) != len(fwd):
-                raise Undefined("two names for one key")
+            if len(inv) != len(fwd) or len(fwd) != len(st.get("map") or st["names"]):
+                raise Undefined("names and keys of a header map must be pairwise distinct")
             out = {}
             for k, v in e.d.items():
                 if k not in inv:
@@ -901,10 +901,13 @@ def areas(case, acc):
     if kind == "dense":
         if acc is not None and acc["a"] == "feats" and acc["sub"]["a"] in ("name", "headers"):
             out.append(("dense:feats-header-map", lambda how, err, exp: True))
-        if "encode" in ops and (acc is None or leaf(acc)["a"] == "name"):
+        eff = [st["op"] for st in stages if effective(st) and st["op"] not in ("label", "enccat")]   # EncodeCatRows without categoricals passes rows through
+        if (acc is None and "encode" in ops) or (acc is not None and leaf(acc)["a"] == "name" and eff and eff[-1] == "encode"):
+            # a by-name access reaches EncodeDense only when no later HeadRows / DropRows has already turned the name into a position
             out.append(("dense:name-through-EncodeDense", lambda how, err, exp: err == "TypeError"))
         if acc is not None and leaf(acc)["a"] == "headers" and "drop" in ops:
-            out.append(("dense:headers-after-dropping-all-columns", lambda how, err, exp: how == "wrong" and exp.get("v") == []))
+            out.append(("dense:headers-after-dropping-all-columns", lambda how, err, exp: how == "wrong" and exp.get("v") == [],
+                        lambda exp: exp is None or "u" in exp or exp.get("v") == []))
     else:
         if acc is not None and leaf(acc)["a"] == "len" and case["base"]["wrap"] == "arff":
             out.append(("sparse:len-ignores-default-entries", lambda how, err, exp: how == "wrong"))
@@ -1024,7 +1027,21 @@ class C13(Property):
         "except positions >= len which must raise",
         "EncodeRows is not generated after EncodeCatRows (str() of a tuple is not modelled)",
     ]
-    partial_theorems = {}
+    partial_theorems = {
+        "Coba.C13.feats_label_partial": "forced hypothesis: LabelRows is the last stage. feats/label/tipe are forwarded by __getattr__ to the "
+                                        "LabelDense wrapper and ignore every stage applied afterwards (feats_label_counterexample, recorded C13-F8)",
+        "Coba.C13.feats_label_sparse_partial": "same forced hypothesis for sparse rows (feats_label_sparse_counterexample, recorded C13-F9); "
+                                               "also restricted to simpleBase / noEnccat",
+        "Coba.C13.sparse_get_partial": "two-sided by-key statement; false for header-mapped LazySparse bases, which also answer to their raw integer "
+                                       "keys (sparse_get_counterexample); simpleBase = dict or LazySparse without header map",
+        "Coba.C13.sparse_defined_partial": "sparse theorems are proved for simpleBase (dict / LazySparse without header map) and pipelines without an "
+                                           "effective EncodeCatRows; ArffReader's sparse rows and EncodeCatRows on dicts are model + correspondence only",
+        "Coba.C13.sparse_row_dropped_partial": "as sparse_defined_partial",
+        "Coba.C13.items_eq_partial": "as sparse_defined_partial",
+        "Coba.C13.sparse_keys_eq_partial": "as sparse_defined_partial",
+        "Coba.C13.sparse_len_eq_partial": "as sparse_defined_partial",
+        "Coba.C13.sparse_observations_partial": "as sparse_defined_partial",
+    }
 
     # -------------------------------------------------------------- generation
     def gen_table(self, rng, kind, tier):
@@ -1222,6 +1239,7 @@ class C13(Property):
                             cur_types = [("tuple" if t == "onehot_tuple" else "word") if x.startswith("cat") else x for x in cur_types]
                     else:
                         cur_types = [("tuple" if t == "onehot_tuple" else "word") if x.startswith("cat") else x for x in cur_types]
+        self._final_names = cur_names
         return stages
 
     def sample_value(self, rng, ctype):
@@ -1299,9 +1317,19 @@ class C13(Property):
             for st in stages:
                 if st["op"] == "enccat" and st.get("t") == "onehot":
                     pool.update("%s_%d" % (k, i) for k in list(pool) for i in range(2))
+        final = [x for x in (self._final_names or []) if x is not None]
         labeled = any(st["op"] == "label" for st in stages)
         nmax = ncols if not any(st["op"] == "enccat" and st.get("t") == "onehot" for st in stages) else ncols + 4
         acc = self.gen_accesses(rng, kind, nmax, sorted(pool, key=str), labeled)
+        if final:
+            # most by-name accesses go to names the final table really has
+            def retarget(a):
+                if a["a"] == "name" and rng.chance(0.75):
+                    a["k"] = rng.choice(final)
+                elif a["a"] == "feats":
+                    retarget(a["sub"])
+            for a in acc:
+                retarget(a)
         case = {"kind": kind, "base": base, "rows": rows, "stages": stages, "ri": rng.below(len(rows)) if rng.chance(0.8) else 0,
                 "acc": acc, "perm": rng.shuffle(list(range(len(acc))))}
         return case
@@ -1353,6 +1381,14 @@ class C13(Property):
                      [[[0, "1"]], [[1, "q"], [2, "x"]]], [{"op": "drop", "cols": ["a"], "pred": {"p": "missing"}}], full_s, 1))
         cs.append(mk("sparse", plain, [[["a", {"cat": "q", "lv": ["p", "q"]}], ["b", 2]]], [{"op": "enccat", "t": "onehot"}], full_s + [{"a": "name", "k": "a_1"}]))
         cs.append(mk("sparse", {"wrap": "lazy", "loader": False}, [[["a", {"cat": "q", "lv": ["p", "q"]}], ["b", 2]]], [{"op": "enccat", "t": "string"}], full_s))
+        # recorded C13-F5: an absent key read through two EncodeSparse wrappers
+        cs.append(mk("sparse", plain, [[]], [{"op": "encode", "map": []}, {"op": "encode", "seq": ["str", "str"]}], [{"a": "name", "k": 1}, {"a": "items"}, {"a": "len"}]))
+        cs.append(mk("sparse", plain, [[["a", "1"]]], [{"op": "encode", "map": [["a", "int"]]}, {"op": "label", "k": "y", "t": "r"}], [{"a": "label"}, {"a": "items"}, {"a": "name", "k": "y"}]))
+        # witness of sparse_get_counterexample: a header-mapped LazySparse also answers to its raw integer key
+        cs.append(mk("sparse", {"wrap": "lazy", "loader": False, "hdr": ["a"]}, [[[0, 7]]], [], [{"a": "name", "k": 0}, {"a": "name", "k": "a"}, {"a": "items"}, {"a": "keys"}, {"a": "len"}]))
+        # witnesses of feats_label_counterexample / feats_label_sparse_counterexample (recorded C13-F8 / C13-F9)
+        cs.append(mk("dense", plain, [[1, 2, 3]], [{"op": "label", "k": 1, "t": "c"}, {"op": "encode", "seq": ["inc", "inc", "inc"]}], [{"a": "iter"}, {"a": "label"}]))
+        cs.append(mk("sparse", plain, [[[0, 1], [1, 2]]], [{"op": "label", "k": 1, "t": "c"}, {"op": "encode", "map": [[0, "inc"], [1, "inc"]]}], [{"a": "items"}, {"a": "label"}]))
         # label not last (forced hypothesis of feats_label)
         cs.append(mk("dense", plain, [["1", "2", "3"]], [head, {"op": "label", "k": "b", "t": "c"}, {"op": "encode", "seq": ["int", "int", "int"]}], full_d + lab_d))
         cs.append(mk("sparse", plain, [[["a", "1"], ["b", "2"]]], [{"op": "label", "k": "b", "t": "c"}, {"op": "encode", "map": [["a", "int"], ["b", "int"]]}], full_s + lab_s))
@@ -1451,8 +1487,13 @@ class C13(Property):
                     for j, acc in enumerate(case["acc"]):
                         if bsig[j] is not None:
                             continue        # already reported as (B); the model mirrors the repaired code there
+                        if et is None and leaf(acc)["a"] in ("iter", "copy", "eq", "items"):
+                            # some cell's encoder raises (the eager table is undefined): which consumer pulls the failing cell
+                            # (zip / compress / islice stop early) is not modelled; whole-row accesses are not compared then
+                            tags.append("A-skipped-partial-iteration")
+                            continue
                         if suspended(case, acc, exps[j]):
-                            tags.append("A-suspended-access")
+                            tags.append("A-suspended-access:" + leaf(acc)["a"])
                             continue
                         x, y = mreal["first"][j], m["first"][j]
                         if "u" in x or "u" in y:
